@@ -32,6 +32,20 @@ Definition judge (q : quirks) (c : cfg) (t : atab) (f : file) (runs : list (stri
          :: map (fun cq => out_eqb impl (run_cmd cq cmd c t f)) (candidates q))
       runs.
 
+(* the same through the path the multi-file / symbolic-link theorems talk about (run_entry): the harness passes the
+   final component of the link target for names that are symbolic links *)
+Definition judge_e (q : quirks) (c : cfg) (e : entry) (runs : list (string * outcome)) : list (list bool) :=
+  let tg := atab_good (e_tab e) in
+  map (fun r =>
+         let cmd := fst r in
+         let impl := snd r in
+         let spec := Ok (spec_out cmd (e_tab e) (e_file e)) in
+         (is_command cmd && tg && cfg_clean c)
+         :: out_eqb impl spec
+         :: out_eqb (run_entry ideal cmd c e) spec
+         :: map (fun cq => out_eqb impl (run_entry cq cmd c e)) (candidates q))
+      runs.
+
 (* leaf level: the string functions against CPython (suffix, lower, shebang test, language) *)
 Definition leaf (q : quirks) (f : file) : string * string * bool * string :=
   (py_suffix (f_name f), lower (py_suffix (f_name f)), is_shebang (first_line (f_head f)), detect q f).
